@@ -90,7 +90,7 @@ def _classify_loop(ctx, lib, b, S, comp, trans):
         v = trans[b.path]
         childs = [s for s in S.calls if s["vw"].body is b and s["bb"] in comp and s["c"].body_path in v.child]
         fails = [s for s in S.calls if s["vw"].body is b and s["bb"] in comp and s["c"].adt == v.S and s["name"] == "fail"]
-        if len(childs) == 1 and len(fails) == 1:
+        if len(childs) >= 1 and len(fails) == 1:
             # every trip around the loop passes the fail read, and the loop state is replaced by it
             if not _has_cycle_avoiding(b, comp, fails[0]["bb"]) and not _has_cycle_avoiding(b, comp, childs[0]["bb"]):
                 st = childs[0]["args"][1]
@@ -98,6 +98,14 @@ def _classify_loop(ctx, lib, b, S, comp, trans):
                 # the loop has a ROOT exit
                 eq_root = switches_on(S.root, lambda d: d[0] == "bin" and d[1] == "Eq" and (is_const(d[2], 0) or is_const(d[3], 0)))
                 has_exit = any(sbi in comp and bool_arms(stj)[0] not in comp for sbi, stj, d in eq_root)
+                if ok and not has_exit:
+                    # any other form of the exit test (`while child.is_none() && state != ROOT`): the transition's decision table
+                    # (TRANS-TABLE) has the row "no child at ROOT -> returns", i.e. the walk leaves the loop at ROOT
+                    from . import search
+                    try:
+                        has_exit = bool(search._trans_semantic(ctx, v, b, S.fv, b.path in v.trans_of_kind.get("leftmost", set())))
+                    except Exception:
+                        has_exit = False
                 if ok and has_exit:
                     return "fail-walk"
     return None
